@@ -62,10 +62,14 @@ def trace_cfg(mc_cfg_text, devs, spec="TSpec"):
     return "\n".join(lines) + "\nCONSTRAINT Report\nCHECK_DEADLOCK FALSE\n"
 
 
-def validate_with_findings(res: Result, trace_module, traces, mc_cfg_text, *, describe, meta=None, timeout=1200):
+def validate_with_findings(res: Result, trace_module, traces, mc_cfg_text, *, describe, meta=None, timeout=1200, project=None):
     """Two-pass validation.  `describe(trace, matched)` renders the failing step for reports.
     Returns aggregate stats."""
     open_devs = findings.open_deviations(res.pid)
+    full = traces
+    if project is not None:
+        # what TLC reads (the full records stay available for reports and replay files)
+        traces = [project(t) for t in full]
     r1, agg = tlc.validate_traces(trace_module, traces, cfg_text=trace_cfg(mc_cfg_text, []), timeout=timeout)
     bad = [i for i, r in enumerate(r1) if not r["ok"]]
     stats = {"validated": len(traces), "accepted_conformant": len(traces) - len(bad), "tlc_states": agg["states"], "tlc_distinct": agg["distinct"]}
@@ -84,7 +88,7 @@ def validate_with_findings(res: Result, trace_module, traces, mc_cfg_text, *, de
         bad_final = [(i, r1[i]) for i in bad]
     stats["accepted_with_known_deviation"] = len(bad) - len(bad_final)
     for i, r in bad_final:
-        t = traces[i]
+        t = full[i]
         res.violation(describe(t, r["matched"]), {"trace": t, "matched_steps": r["matched"], "meta": (meta[i] if meta else None)})
     stats["rejected"] = len(bad_final)
     return stats
